@@ -36,9 +36,10 @@ theorem effMode_eq (h1 : s.mode ≠ .text) (h2 : s.mode ≠ .inTableText) : effM
 theorem AT.ofInv (hI : Inv false s) (hB : BInv s) : AT s.tree := ⟨hI.tree, W.ofSuffix hB.ba.w⟩
 
 theorem bstep_keep (hB : BInv s) (hph : BodyPhase s) (h1 : s.mode ≠ .text) (h2 : s.mode ≠ .inTableText)
-    (hk : Keeps s.tree s'.tree) (hm : ModeRel s s') (hform : FormRel s s')
+    (hafe : AfeFmt s.tree) (hk : Keeps s.tree s'.tree) (hm : ModeRel s s') (hform : FormRel s s')
     (hfo : s'.framesetOk = s.framesetOk ∨ s'.framesetOk = false)
-    (htxt : s'.mode = .text → ∃ e r, s'.tree.stack = e :: r ∧ e.isAnchor = false) : BStep s s' := by
+    (htxt : s'.mode = .text → ∃ e r, s'.tree.stack = e :: r ∧ e.isAnchor = false)
+    (hsel : s'.framesetOk = true → TreeOk PNoSel s.tree → TreeOk PNoSel s'.tree) : BStep s s' := by
   have he := effMode_eq h1 h2
   obtain ⟨hp1, hp2⟩ := hph
   rw [he] at hp1 hp2
@@ -51,18 +52,28 @@ theorem bstep_keep (hB : BInv s) (hph : BodyPhase s) (h1 : s.mode ≠ .text) (h2
     · rcases e2 with e2 | e2 | e2 <;>
         (have : effMode s' = s'.mode := by simp [effMode, e2]
          rw [this, e2, e1]; simp [modeAnchors, preBody, framesetModes])
-  refine ⟨⟨⟨?_, ?_, ?_⟩, ?_, htxt⟩, ?_, ⟨hanch.2.1, hanch.2.2⟩⟩
-  · rw [hk]; exact hB.ba.w
-  · rw [hk]; exact hB.ba.bottom
-  · have := hB.ba.anch
-    rw [he] at this
-    unfold AnchOk at this ⊢
-    rw [hanch.1, hk]; exact this
-  · intro f hf
+  have hselS : s'.framesetOk = true → StackAll PNoSel s'.tree := by
+    intro h
+    have hs : s.framesetOk = true := by
+      rcases hfo with e | e
+      · rw [← e]; exact h
+      · rw [e] at h; cases h
+    exact (hsel h ⟨hB.sel hs, hafe⟩).stack
+  have hform' : ∀ f, s'.formPtr = some f → f.isAnchor = false := by
+    intro f hf
     rcases hform with e | e | ⟨f', e, hf'⟩
     · exact hB.form f (e ▸ hf)
     · rw [e] at hf; cases hf
     · rw [e] at hf; injection hf with hf; subst hf; exact hf'
+  have hanchOk : AnchOk (effMode s') (anchorSuffix s'.tree.stack) := by
+    have := hB.ba.anch
+    rw [he] at this
+    unfold AnchOk at this ⊢
+    rw [hanch.1, hk]; exact this
+  refine ⟨⟨⟨?_, ?_, hanchOk, ?_⟩, hform', htxt, hselS⟩, ?_, ⟨hanch.2.1, hanch.2.2⟩⟩
+  · rw [hk]; exact hB.ba.w
+  · rw [hk]; exact hB.ba.bottom
+  · rw [hk]; exact hB.ba.nofs
   · intro h
     rcases hfo with e | e
     · rw [e]; exact h
@@ -77,14 +88,16 @@ macro_rules
     | contradiction
     | (exfalso; simp_all; done)
     | (show BStep _ _; with_reducible exact bstep_same $hB $hph)
-    | (show BStep _ _; refine bstep_keep $hB $hph $h1 $h2 ?_ ?_ ?_ ?_ ?_
+    | (show BStep _ _; refine bstep_keep $hB $hph $h1 $h2 (AT.ok $hAT).afe ?_ ?_ ?_ ?_ ?_ ?_
        · ((try dsimp only [onTree_tree]); keeps_ok $hAT)
        · first | exact Or.inl ⟨rfl, rfl⟩ | exact Or.inr (Or.inl ⟨rfl, rfl⟩)
        · first | exact Or.inl rfl | exact Or.inr (Or.inl rfl)
                | (refine Or.inr (Or.inr ⟨_, rfl, ?_⟩); simp [El.isAnchor, El.isHtmlIn, anchorNames, Name.isIn])
        · first | exact Or.inl rfl | exact Or.inr rfl
        · first | (intro h; exact absurd h $h1)
-               | (intro _; exact ⟨_, _, rfl, by simp [El.isAnchor, El.isHtmlIn, anchorNames, Name.isIn]⟩)))
+               | (intro _; exact ⟨_, _, rfl, by simp [El.isAnchor, El.isHtmlIn, anchorNames, Name.isIn]⟩)
+       · first | (intro h; simp at h; done)
+               | (intro _ hT; (try dsimp only [onTree_tree]); sel_ok)))
 
 /-! ### removing a non-anchor element from anywhere in the stack -/
 
@@ -137,7 +150,7 @@ theorem W.filter (x : El) (hx : x.isAnchor = false) (st : List El) (h : W st) : 
 
 theorem BA.filter {m : Mode} {A : List El} (h : BA m A) (x : El) (hx : x.isAnchor = false)
     (hA : ∀ a r, A = a :: r → a.isAnchor = true) : BA m (A.filter (· != x)) := by
-  refine ⟨W.filter x hx A h.w, ?_, ?_⟩
+  refine ⟨W.filter x hx A h.w, ?_, ?_, fun e he => h.nofs e (List.mem_filter.mp he).1⟩
   · obtain ⟨mid, b, hh, hAe, hb, hhh, hmid⟩ := h.bottom
     have hbn : (b != x) = true := by
       simp only [bne_iff_ne, ne_eq]; intro e
@@ -185,10 +198,18 @@ theorem bstep_filter (hB : BInv s) (hph : BodyPhase s) (h1 : s.mode ≠ .text) (
     (x : El) (hx : x.isAnchor = false)
     (hk : anchorSuffix s'.tree.stack = (anchorSuffix s.tree.stack).filter (· != x))
     (hm : s'.mode = s.mode ∧ s'.origMode = s.origMode) (hform : FormRel s s')
-    (hfo : s'.framesetOk = s.framesetOk ∨ s'.framesetOk = false) : BStep s s' := by
+    (hfo : s'.framesetOk = s.framesetOk ∨ s'.framesetOk = false)
+    (hsel : s'.framesetOk = true → StackAll PNoSel s.tree → StackAll PNoSel s'.tree) : BStep s s' := by
   have he := effMode_eq h1 h2
   have he' : effMode s' = effMode s := by simp [effMode, hm.1, hm.2]
-  refine ⟨⟨?_, ?_, fun h => absurd (hm.1 ▸ h) h1⟩, ?_, ?_⟩
+  have hselS : s'.framesetOk = true → StackAll PNoSel s'.tree := by
+    intro h
+    have hs : s.framesetOk = true := by
+      rcases hfo with e | e
+      · rw [← e]; exact h
+      · rw [e] at h; cases h
+    exact hsel h (hB.sel hs)
+  refine ⟨⟨?_, ?_, fun h => absurd (hm.1 ▸ h) h1, hselS⟩, ?_, ?_⟩
   · rw [he', hk]
     exact hB.ba.filter x hx (anchorSuffix_head_anchor _)
   · intro f hf
